@@ -362,3 +362,49 @@ func genC14(r *rand.Rand, n int, emit func(string)) {
 }
 
 var _ = opb.B64E
+
+func init() { register("C14ctor", genC14ctor) }
+
+var ctorValueKey = map[string]string{"replace": "document", "ietf-json-patch": "patches", "add-public-keys": "publicKeys", "remove-public-keys": "ids",
+	"add-services": "services", "remove-services": "ids", "add-also-known-as": "uris", "remove-also-known-as": "uris"}
+
+// genC14ctor: the eight patch constructors. The argument is the value member of a patch that passes
+// validation ("valid": the constructed patch must pass it too), or that value corrupted, of another
+// JSON type, with null / empty entries, or no JSON at all.
+func genC14ctor(r *rand.Rand, n int, emit func(string)) {
+	for i := 0; i < n; i++ {
+		p := validatedPatch(r)
+		action := p["action"].(string)
+		var v interface{} = deepCopy(p[ctorValueKey[action]])
+		label := "valid"
+		text := ""
+		switch r.Intn(10) {
+		case 0:
+			v, label = corrupt(r, v), "corrupted"
+		case 1:
+			v, label = deepCopy(pick(r, wrongTyped)), "other-json-type"
+		case 2:
+			if l, ok := v.([]interface{}); ok {
+				switch r.Intn(3) {
+				case 0:
+					v, label = append(append([]interface{}{}, l...), nil), "null-entry"
+				case 1:
+					v, label = []interface{}{}, "empty-list"
+				default:
+					v, label = append(append([]interface{}{}, l...), l[0]), "repeated-entry"
+				}
+			}
+		case 3:
+			text, label = pick(r, []string{"", "not json", "[", "{", "[1,]", "nul"}), "not-json"
+		case 4:
+			if d, ok := v.(map[string]interface{}); ok && action == "replace" {
+				d[pick(r, []string{"service", "publicKey", "id", "x", "alsoKnownAs"})] = []interface{}{}
+				label = "replace-foreign-member"
+			}
+		}
+		if label != "not-json" {
+			text = ToJV(v).Render(r, r.Intn(3) == 0)
+		}
+		emit(proto.Line("ctor", M{"ctor": action, "arg": proto.Hex([]byte(text)), "uri": UriTable([]interface{}{deepCopy(v), ""}), "label": label}))
+	}
+}
